@@ -164,7 +164,7 @@ func init() {
 	// C03 has two engines: the whole-engine level (vsim) registered above and
 	// the poller level, run as a second stage by the same check.
 	props["C03"].extra = []*propCfg{{engine: "vpoll", instrumented: true,
-		variantsQ: []string{"default+small", "poll_opt"}, variantsT: []string{"default", "default+small", "poll_opt", "poll_opt+small"}}}
+		variantsQ: []string{"default+small", "poll_opt+small"}, variantsT: []string{"default", "default+small", "poll_opt", "poll_opt+small"}}}
 }
 
 var selftests = map[string]func(tier string) int{
